@@ -68,7 +68,8 @@ theorem rebuild_boxInv (q q' : Q K) (items : List (Nat × Aabb3 K)) (dil : K) (c
       (∀ it ∈ items, ValidBox it.2) → rebuild q items dil = some q' → BoxInv q' (curAfter items cur) := by
   letI := fieldNum K sq
   intro hd hnd hid hlen hv h
-  exact rebuild_box (boxLaws_fieldNum sq) q q' items dil (dilateLaws_fieldNum sq dil hd) cur hnd hid hlen hv h
+  exact rebuild_box (boxLaws_fieldNum sq) _ q q' items dil (dilateLaws_fieldNum sq dil hd) cur hnd hid hlen
+    (fun it hit => Or.inl (hv it hit)) h
 
 end boxes
 
